@@ -1070,7 +1070,7 @@ def build_cases(ctx, scale):
     cases += exhaustive_task(2 if quick else 3, 2 if quick else 2)
     cases += exhaustive_overlap()
     cases += exhaustive_nested()
-    n = {'py': 4000, 'cmd': 1200, 'task': 2000, 'nested': 1500, 'overlap': 200} if quick else \
+    n = {'py': 3000, 'cmd': 900, 'task': 1500, 'nested': 1200, 'overlap': 160} if quick else \
         {'py': 30000, 'cmd': 12000, 'task': 20000, 'nested': 12000, 'overlap': 1500}
     for kind, gen in (('py', gen_py), ('cmd', gen_cmd), ('task', gen_task), ('nested', gen_nested),
                       ('overlap', gen_overlap)):
